@@ -88,4 +88,4 @@ def fix_deprecated(workpath: Path, fix: bool, cleanup: bool):
                         # Rename the folder
                         oldjobpath.rename(newjobpath)
                     else:
-                        newjobpath.symlink_to(oldjobpath)
+                        newjobpath.symlink_to(oldjobpath.resolve())
